@@ -78,10 +78,11 @@ def sdiff (s : S) (others : List S) : List Bytes :=
 def sinter (s : S) (others : List S) : List Bytes :=
   (members s).filter fun m => others.all fun o => mem o m
 
-/-- `SUnion`: own members, then for each other set its members that are not in the *receiver*
-    (duplicates across the other sets are not removed) -/
+/-- `SUnion`: own members, then the members of the other sets that are not in the receiver, each
+    reported once (first occurrence) -/
 def sunion (s : S) (others : List S) : List Bytes :=
-  members s ++ others.flatMap fun o => (members o).filter fun m => !(mem s m)
+  let extra := others.flatMap fun o => (members o).filter fun m => !(mem s m)
+  members s ++ extra.foldl (fun acc m => if acc.contains m then acc else acc ++ [m]) []
 
 /-- `SScan`: ignores the cursor except for the termination test -/
 def sscan (s : S) (cursor : Int) (pat : Bytes) (count : Int) : Int × Option (List Bytes) :=
